@@ -252,8 +252,7 @@ class AsyncClient(base_client.BaseClient):
                 'Unexpected status code {} in server response'.format(
                     r.status), arg)
         try:
-            p = payload.Payload(encoded_payload=(await r.read()).decode(
-                'utf-8'))
+            p = self._decode_payload((await r.read()).decode('utf-8'))
         except ValueError:
             raise exceptions.ConnectionError(
                 'Unexpected response from server') from None
@@ -539,8 +538,7 @@ class AsyncClient(base_client.BaseClient):
                 await self.queue.put(None)
                 break
             try:
-                p = payload.Payload(encoded_payload=(await r.read()).decode(
-                    'utf-8'))
+                p = self._decode_payload((await r.read()).decode('utf-8'))
             except ValueError:
                 self.logger.warning(
                     'Unexpected packet from server, aborting')
